@@ -573,15 +573,23 @@ def wfOtherJ (maxKey : Nat) (kv : Str × Str) : Bool :=
   isWord kv.1 && (match kv.1 with | c :: _ => isLetter c | [] => false) && kv.1.length ≤ maxKey
     && !reservedKeys.contains kv.1 && textJ kv.2
 
+/-- a feature without cached location text carries a structure that IS a location (`wfLoc`): a `Join`
+node without operands, `Start/End` on a node with operands, a one-operand node that is neither a join nor a
+double complement are not locations, the property demands nothing of what `Build` writes for them -/
+def wfFeatureLocJ (f : Feature) : Bool := f.gbkLocationString != [] || wfLoc f.sequenceLocation
+
+/-- the judge's layout domain.  An extra keyword has at most 11 letters: the flat-file layout sets a keyword
+off from its text by at least one blank (12-column keyword field), as a feature key (≤ 15 in its 16 columns) -/
 def wfLayoutJ (x : Sequence) : Bool :=
   let m := x.metadata
   wfLocusJ m.locus
     && textJ m.definition && textJ m.accession && textJ m.version
     && textJ m.keywords && textJ m.source && textJ m.organism
     && m.references.all wfRefJ
-    && nodupKeys m.other && m.other.all (wfOtherJ 12)
+    && nodupKeys m.other && m.other.all (wfOtherJ 11)
     && x.features.all wfFeature
     && x.sequence != [] && x.sequence.all isLetter && x.sequence.length < 1000000000
+    && x.features.all wfFeatureLocJ
 
 def wfSeqJ (x : Sequence) : Bool :=
   let m := x.metadata
